@@ -100,7 +100,23 @@ def rand_argument(rng, *, modal=False, quant=False, ident=False, depth=3, max_pr
     return prem, conc
 
 
-def schema_argument(rng, *, modal=False, quant=False, ident=False, depth=2):
+def dualise(s):
+    """the same sentence with every box written as not-diamond-not and every diamond as not-box-not (equivalent in every
+    registered logic: the modal operators are each other's duals through the logic's negation) — proofs then run through the
+    NEGATED modal rules, which sit in other rule groups and are scored differently"""
+    O = Operator
+    if isinstance(s, Operated):
+        ops = tuple(dualise(x) for x in s.operands)
+        if s.operator in (O.Necessity, O.Possibility):
+            other = O.Possibility if s.operator is O.Necessity else O.Necessity
+            return Operated(O.Negation, (Operated(other, (Operated(O.Negation, ops),)),))
+        return Operated(s.operator, ops)
+    if isinstance(s, Quantified):
+        return Quantified(s.quantifier, s.variable, dualise(s.sentence))
+    return s
+
+
+def schema_argument(rng, *, modal=False, quant=False, ident=False, depth=2, enumerate_atomic=False):
     """An argument built from an inference schema instantiated with random subsentences: premises that INTERACT (so that
     premise order, options and instantiation order can matter) and a good share of valid arguments in most logics —
     valid or not, the checks only compare verdicts of related runs."""
@@ -111,7 +127,7 @@ def schema_argument(rng, *, modal=False, quant=False, ident=False, depth=2):
     def b2(o, x, y): return Operated(o, (x, y))
     def box(x): return Operated(O.Necessity, (x,))
     def dia(x): return Operated(O.Possibility, (x,))
-    A, B, C = S(), S(), S()
+    A, B, C = (ATOMS[0], ATOMS[1], ATOMS[2]) if enumerate_atomic else (S(), S(), S())
     cond = rng.choice([O.Conditional, O.MaterialConditional])
     props = [
         lambda: ([A, b2(cond, A, B)], B),
@@ -154,6 +170,13 @@ def schema_argument(rng, *, modal=False, quant=False, ident=False, depth=2):
     ]
     # redundancy: premises that OVERLAP, so that what a rule would add is already on the branch when the rule gets there
     # (the 'already there' shortcuts, applied-instance caches and least-applied counters are only exercised by such input)
+    # valid for a simple reason, with side premises that keep generating worlds in transitive frames (the proof then lives
+    # next to the world limit and its quit-flag path)
+    blowup_modal = [
+        lambda: ([box(A), box(dia(B)), dia(C)], A),
+        lambda: ([A, box(dia(B)), dia(dia(C))], dia(A)),
+        lambda: ([box(dia(A)), dia(B), box(C)], dia(C)),
+    ]
     redundant_modal = [
         lambda: ([box(A), dia(A)], C),
         lambda: ([box(A), dia(b2(O.Conjunction, A, B))], C),
@@ -203,7 +226,7 @@ def schema_argument(rng, *, modal=False, quant=False, ident=False, depth=2):
     if ident:
         pool = pool[:6] + idents * 2 + (idents_modal * 3 if modal else [])
     if modal:
-        pool += modals * 2 + redundant_modal * 2
+        pool += modals * 2 + redundant_modal * 2 + blowup_modal * 2
     if quant:
         pool += redundant_quant + multi_quant * 2
     if quant:
@@ -211,12 +234,27 @@ def schema_argument(rng, *, modal=False, quant=False, ident=False, depth=2):
     if modal and quant:
         pool += [lambda: ([box(Quantified(U, X, P1(X)))], box(P1(c))), lambda: ([Quantified(U, X, box(P1(X)))], box(P1(c))),
                  lambda: ([dia(P1(c))], dia(Quantified(E, X, P1(X))))]
+    if enumerate_atomic:
+        # every distinct schema once, instantiated with sentence letters
+        seen, out = set(), []
+        for mk in pool:
+            if id(mk) not in seen:
+                seen.add(id(mk))
+                out.append(mk())
+        return out
     prem, conc = rng.choice(pool)()
     if rng.random() < 0.3:
         prem = prem + [S()]
     if rng.random() < 0.5:
         rng.shuffle(prem)
+    if modal and rng.random() < 0.25:
+        prem, conc = [dualise(x) for x in prem], dualise(conc)
     return prem, conc
+
+
+def all_schemata(rng, *, modal=False, quant=False, ident=False):
+    """every inference schema of `schema_argument` once, instantiated with sentence letters (a list of (premises, conclusion))"""
+    return schema_argument(rng, modal=modal, quant=quant, ident=ident, enumerate_atomic=True)
 
 
 def job_for(idx, logic, prem, conc, opts=None, **kw):
